@@ -45,6 +45,7 @@ RULE += (' Also: sources that are awaitable and asynchronously iterable (every t
 RULE += (' Also: synchronous mappings whose values are awaitable jobs handed to tools as (synchronous) iterables: no suspension, no job awaited.')
 RULE += (' Also: all / any / min / tuple / sorted / nsmallest / dropwhile / filterfalse / filter(None) / chain.from_iterable / iter(callable, sentinel) / scoped_iter / borrow / anext over large synchronous inputs and over items that are awaitable jobs.')
 RULE += (' Also: comparisons (==, <) of user keys answering with awaitable objects: only their truth value is used (iter with sentinel, groupby, max, sorted).')
+RULE += (' Also: expression objects whose sum is an awaitable expression (sum); classes with an async __call__ used as callables (their instances are results).')
 ASSUMPTIONS = ["a loop that checks identity of every token and reply is at least as strict as any real event loop",
                "C functions called from asyncstdlib code are visible to sys.monitoring CALL events"]
 EXHAUSTIVE = {"quick": False, "thorough": False}
@@ -139,7 +140,9 @@ def cases(tier, seed, shard, nshards):
         for tool in ("map", "map2", "starmap", "filter", "takewhile", "accumulate", "reduce", "iter", "exitstack", "sync",
                      "enter_payload", "enter_generator", "zip_longest_payload_fill"):
             yield {"kind": "generator-callable", "tool": tool}
-        for tool in ("iter_sentinel", "groupby", "groupby_nokey", "max_key", "sorted_key"):
+        for tool in ("iter_sentinel", "groupby", "groupby_nokey", "max_key", "sorted_key", "sum_expressions",
+                     "sum_expressions_start", "map_class_with_async_call", "starmap_class_with_async_call",
+                     "sorted_key_class_with_async_call"):
             yield {"kind": "awaitable-comparison", "tool": tool}
         for tool in MAPPING_TOOLS:
             for shape in ("dict", "mapping_class", "first_plain", "empty"):
@@ -1295,6 +1298,39 @@ def run_awaitable_comparison(case, stats):
             async for _, group in gb:
                 sizes.append(len(await A.list(group)))
             return sizes == [2, 2, 1]
+        if tool in ("sum_expressions", "sum_expressions_start"):
+            # lazy expression objects: adding two of them gives another one - a value that happens to be awaitable
+            class Expr(AwaitablePayload):
+                def __add__(self, other):
+                    return Expr(("sum", self.k, getattr(other, "k", other)))
+
+                __radd__ = __add__
+
+            if tool == "sum_expressions":
+                total = await A.sum([Expr(1), Expr(2), Expr(3)])
+                return isinstance(total, Expr) and total.k == ("sum", ("sum", ("sum", 1, 0), 2), 3)
+            total = await A.sum([1, 2], Expr(0))
+            return isinstance(total, Expr) and total.k == ("sum", ("sum", 0, 1), 2)
+        if tool.endswith("class_with_async_call"):
+            # the callable is a CLASS whose instances have ``async def __call__`` (a job type): calling the class gives an
+            # instance - a plain value, handed on as it is; nobody asked for the job to be run
+            class JobType:
+                def __init__(self, *args):
+                    self.args = args
+
+                async def __call__(self):
+                    CTX.foreign.append("a job object created by the callable was run")
+
+                def __lt__(self, other):
+                    return self.args < other.args
+
+            if tool == "map_class_with_async_call":
+                jobs = await A.list(A.map(JobType, [1, 2, 3]))
+                return [type(j) for j in jobs] == [JobType] * 3 and [j.args for j in jobs] == [(1,), (2,), (3,)]
+            if tool == "starmap_class_with_async_call":
+                jobs = await A.list(A.starmap(JobType, [(1, 2), (3, 4)]))
+                return [j.args for j in jobs] == [(1, 2), (3, 4)]
+            return (await A.sorted([3, 1, 2], key=JobType)) == [1, 2, 3]
         if tool == "max_key":
             return (await A.max([1, 3, 2], key=Key)) == 3
         if tool == "sorted_key":
